@@ -1051,14 +1051,15 @@ fn run_field(cmd: &Cmd, fi: usize, v: u64, sc: u8, rng: &mut Prng, col: &mut Col
         col.sample(json!({"command": cmd.name, "field": f.name, "value": v, "scenario": sc, "before": hex(&before), "after": hex(&after), "verdict": vd.class}));
     }
     if let Some((kind, text)) = vd.fail {
-        let oor = if (f.adm)(v) { "" } else { "|out-of-range" };
+        let scn = ["fresh creator", "all fields pre-set", "same field pre-set to the complement"][sc as usize];
+        let oor = if (f.adm)(v) || kind == "later-set-does-not-override" { "" } else { "|out-of-range" };
         report(
             cmd,
             f.name,
             &format!("{}{}", kind, oor),
             vclass(f, v),
             &text,
-            json!({"value": v, "value_hex": format!("{:#x}", v), "scenario": ["fresh creator", "all fields pre-set", "same field pre-set to the complement"][sc as usize],
+            json!({"value": v, "value_hex": format!("{:#x}", v), "scenario": scn,
                    "earlier_sets": script.iter().map(|(g, x)| json!([cmd.fields[*g].name, x])).collect::<Vec<_>>(),
                    "before": hex(&before), "after": hex(&after), "setter_result": format!("{:?}", res.as_ref().map_err(|t| &t.msg))}),
             col,
@@ -1348,5 +1349,624 @@ fn req_group_case(mask: u8, col: &mut Collector) {
             "refused" => "out_of_range_refused",
             _ => "out_of_range_truncated",
         });
+    }
+}
+
+// ---- sequences ----------------------------------------------------------------------------
+
+enum Elem {
+    Creator(Box<dyn B>),
+    Wrapped(Box<dyn SerializableMacCommand>),
+}
+
+fn sequence_case(rng: &mut Prng, col: &mut Collector) {
+    let cmds = cmds();
+    let set = rng.below(6) as usize;
+    let pool: Vec<&Cmd> = cmds.iter().filter(|c| c.set == set).collect();
+    let n = rng.below(9) as usize;
+    // expected stream, command by command: (name, wire image, snapshot of the lone command)
+    let mut elems: Vec<Elem> = vec![];
+    let mut expect: Vec<(&'static str, Vec<u8>)> = vec![];
+    for _ in 0..n {
+        let c = *rng.pick(&pool);
+        let mut bld = (c.make)();
+        let mut okay = true;
+        for (fi, f) in c.fields.iter().enumerate() {
+            let v = rand_adm(f, rng);
+            if !matches!(trap(|| bld.set(fi, v)), Ok(Ok(()))) {
+                okay = false;
+            }
+        }
+        let img = match trap(|| bld.build()) {
+            Ok(i) if okay => i,
+            _ => {
+                col.event("prefill_panicked");
+                return;
+            }
+        };
+        // a command that does not round-trip alone is the field generator's business
+        if !matches!(snap_one(set, &img), Ok((nm, _)) if nm == c.name) {
+            col.event("sequence_skipped_unparseable_element");
+            return;
+        }
+        expect.push((c.name, img));
+        if rng.bool() {
+            elems.push(Elem::Creator(bld));
+        } else {
+            match trap(|| bld.wrap()) {
+                Ok(w) => elems.push(Elem::Wrapped(w)),
+                Err(_) => return,
+            }
+        }
+    }
+    // a trailing variable-length command (it runs to the end of the stream, so only last)
+    let mut echo = EchoIncPayloadAnsCreator::new();
+    let mut status = McGroupStatusAnsCreator::new();
+    let mut tail: Option<&dyn SerializableMacCommand> = None;
+    if set == 2 && rng.bool() {
+        let dl = rng_len(rng, 1, 60);
+        let d = rng.bytes(dl);
+        if trap(|| {
+            echo.payload(&d);
+        })
+        .is_ok()
+        {
+            expect.push(("EchoIncPayloadAns", echo.build().to_vec()));
+            tail = Some(&echo);
+        }
+    } else if set == 4 && rng.bool() {
+        let mut ids = vec![0u8, 1, 2, 3];
+        let k = rng.below(5) as usize;
+        for i in 0..4 {
+            let j = i + rng.below(4 - i as u64) as usize;
+            ids.swap(i, j);
+        }
+        let nb = rng.below(8) as u8;
+        let a = rng.next_u32();
+        if trap(|| {
+            status.nb_total_groups(nb);
+            for id in &ids[..k] {
+                let _ = status.push(*id, McAddr::from_value(a ^ *id as u32));
+            }
+        })
+        .is_ok()
+        {
+            expect.push(("McGroupStatusAns", status.build().to_vec()));
+            tail = Some(&status);
+        }
+    }
+    let mut refs: Vec<&dyn SerializableMacCommand> = elems
+        .iter()
+        .map(|e| match e {
+            Elem::Creator(b) => b.ser(),
+            Elem::Wrapped(w) => w.as_ref(),
+        })
+        .collect();
+    if let Some(t) = tail {
+        refs.push(t);
+    }
+    let total: usize = expect.iter().map(|e| e.1.len()).sum();
+    let flat: Vec<u8> = expect.iter().flat_map(|e| e.1.iter().copied()).collect();
+    let slack = *rng.pick(&[0usize, 0, 1, 7]);
+    let short = total > 0 && rng.chance(1, 8);
+    let buflen = if short { rng.below(total as u64) as usize } else { total + slack };
+    let mut buf = vec![0xA5u8; buflen];
+    let r = trap(|| (mac_commands_len(&refs), build_mac_commands(&refs, &mut buf[..])));
+    let cls = format!("{}|sequence|n={}|{}", SETS[set], refs.len().min(9), if short { "short-buffer" } else if slack > 0 { "slack" } else { "exact" });
+    let det = |buf: &[u8]| json!({"set": SETS[set], "commands": expect.iter().map(|e| json!([e.0, hex(&e.1)])).collect::<Vec<_>>(), "buffer_len": buflen, "buffer": hex(buf)});
+    let sig = |k: &str| format!("C19|sequence|{}|{}", SETS[set], k);
+    let mut verdict = "roundtrip";
+    match r {
+        Err(t) => {
+            verdict = "violation";
+            col.violation(&sig("panic"), &format!("build_mac_commands / mac_commands_len panicked: {}", t.msg), det(&buf));
+        }
+        Ok((mlen, res)) => {
+            if mlen != total {
+                verdict = "violation";
+                col.violation(&sig("mac_commands_len-differs"), &format!("mac_commands_len = {}, the commands' own images add up to {}", mlen, total), det(&buf));
+            }
+            match res {
+                Err(_) if short => verdict = "refused",
+                Err(e) => {
+                    verdict = "violation";
+                    col.violation(&sig("refused-sufficient-buffer"), &format!("build_mac_commands refused a sufficient buffer: {:?}", e), det(&buf));
+                }
+                Ok(_) if short => {
+                    verdict = "violation";
+                    col.violation(&sig("short-buffer-accepted"), "build_mac_commands wrote a sequence into a buffer that is too small", det(&buf));
+                }
+                Ok(nw) => {
+                    if nw != mlen || buf[..nw.min(buf.len())] != flat[..] {
+                        verdict = "violation";
+                        col.violation(&sig("stream-differs"), &format!("returned length {} (mac_commands_len {}), stream is not the concatenation of the commands", nw, mlen), det(&buf));
+                    } else if buf[nw..].iter().any(|x| *x != 0xA5) {
+                        verdict = "violation";
+                        col.violation(&sig("wrote-past-end"), "octets after the returned length were modified", det(&buf));
+                    } else {
+                        // parse back: same sequence, same boundaries, same field values
+                        match trap(|| snap_seq(set, &buf[..nw])) {
+                            Err(t) => {
+                                verdict = "violation";
+                                col.violation(&sig("parse-panic"), &format!("parsing the built stream panicked: {}", t.msg), det(&buf));
+                            }
+                            Ok(Err(e)) => {
+                                verdict = "violation";
+                                col.violation(&sig("does-not-parse"), &format!("the built stream does not parse back: {}", e), det(&buf));
+                            }
+                            Ok(Ok(items)) => {
+                                let mut same = items.len() == expect.len() && items.iter().map(|i| i.1).sum::<usize>() == mlen;
+                                if same {
+                                    for (it, ex) in items.iter().zip(expect.iter()) {
+                                        let lone = snap_one(set, &ex.1).map(|x| x.1).unwrap_or_default();
+                                        if it.0 != ex.0 || it.1 != ex.1.len() || it.2 != lone {
+                                            same = false;
+                                        }
+                                    }
+                                }
+                                if !same {
+                                    verdict = "violation";
+                                    col.violation(
+                                        &sig("parses-to-other-sequence"),
+                                        "the built stream parses back to a different sequence",
+                                        json!({"built": det(&buf), "parsed": items.iter().map(|i| json!([i.0, i.1])).collect::<Vec<_>>()}),
+                                    );
+                                } else {
+                                    col.event("sequence_roundtrip_ok");
+                                }
+                            }
+                        }
+                    }
+                }
+            }
+        }
+    }
+    col.eval(&format!("{}|{}", cls, verdict));
+    if verdict == "refused" {
+        col.event("sequence_short_buffer_refused");
+    }
+    if col.want_sample() {
+        col.sample(det(&buf));
+    }
+}
+
+fn rng_len(rng: &mut Prng, lo: u64, hi: u64) -> usize {
+    rng.range(lo, hi) as usize
+}
+
+// ---- text forms ---------------------------------------------------------------------------
+
+fn treport(ty: &str, kind: &str, text: String, detail: Value, col: &mut Collector) {
+    col.violation(&format!("C19|text|{}|{}", ty, kind), &format!("{}: {}", ty, text), detail);
+}
+
+fn vclass_int(v: u64, bits: u32) -> &'static str {
+    if v == 0 {
+        "zero"
+    } else if v == full(bits) {
+        "all-ones"
+    } else if v < 16 {
+        "needs-padding-1-digit"
+    } else if v <= full(bits) >> 8 {
+        "needs-padding"
+    } else {
+        "full-width"
+    }
+}
+
+macro_rules! wire_text {
+    ($ty:ident, $n:expr, $int:ty, $v:expr, $col:expr) => {{
+        let v: u64 = $v;
+        let want = format!("{:0w$x}", v, w = 2 * $n);
+        let r = trap(|| {
+            let x = parser::$ty::from_value(v as $int);
+            let s = x.to_string();
+            let back = parser::$ty::from_str(&s).ok();
+            let up = parser::$ty::from_str(&s.to_uppercase()).ok();
+            (x, s, back, up, *x.as_wire_bytes(), x.value() as u64)
+        });
+        let name = concat!("parser::", stringify!($ty));
+        let mut verdict = "roundtrip";
+        match r {
+            Err(t) => {
+                verdict = "violation";
+                treport(name, "panic", format!("to_string/from_str panicked: {}", t.msg), json!({"value": v, "loc": t.loc}), $col);
+            }
+            Ok((x, s, back, _up, wire, val)) => {
+                let le = v.to_le_bytes();
+                if wire[..] != le[..$n] || val != v {
+                    verdict = "violation";
+                    treport(name, "wire-value-differs", format!("from_value({:#x}) has wire octets {} / value {:#x}", v, hex(&wire), val), json!({"value": v}), $col);
+                } else if s.len() != 2 * $n {
+                    verdict = "violation";
+                    treport(name, "display-width", format!("to_string() = {:?} is not {} hex digits", s, 2 * $n), json!({"value": v, "text": s}), $col);
+                } else if !s.eq_ignore_ascii_case(&want) {
+                    verdict = "violation";
+                    treport(name, "display-not-msb-first-hex", format!("to_string() = {:?}, MSB-first hex of the value is {:?}", s, want), json!({"value": v, "text": s}), $col);
+                } else if back != Some(x) {
+                    verdict = "violation";
+                    treport(name, "parse-of-display-differs", format!("from_str({:?}) = {:?}", s, back), json!({"value": v, "text": s}), $col);
+                }
+            }
+        }
+        $col.eval(&format!("text|{}|{}|{}", name, vclass_int(v, 8 * $n), verdict));
+        if verdict == "roundtrip" {
+            $col.event("text_roundtrip_ok");
+        }
+    }};
+}
+
+macro_rules! key_text {
+    ($ty:ident, $bytes:expr, $col:expr) => {{
+        let bytes: [u8; 16] = $bytes;
+        let want = hex(&bytes);
+        let r = trap(|| {
+            let k = keys::$ty::from(bytes);
+            let s = k.to_string();
+            let back = keys::$ty::from_str(&s).ok();
+            (k, s, back)
+        });
+        let name = concat!("keys::", stringify!($ty));
+        let mut verdict = "roundtrip";
+        match r {
+            Err(t) => {
+                verdict = "violation";
+                treport(name, "panic", format!("to_string/from_str panicked: {}", t.msg), json!({"key": want, "loc": t.loc}), $col);
+            }
+            Ok((k, s, back)) => {
+                if s.len() != 32 {
+                    verdict = "violation";
+                    treport(name, "display-width", format!("to_string() = {:?} is not 32 hex digits", s), json!({"key": want}), $col);
+                } else if !s.eq_ignore_ascii_case(&want) {
+                    verdict = "violation";
+                    treport(name, "display-not-msb-first-hex", format!("to_string() = {:?}, key octets are {}", s, want), json!({"key": want}), $col);
+                } else if back != Some(k) {
+                    verdict = "violation";
+                    treport(name, "parse-of-display-differs", format!("from_str({:?}) = {:?}", s, back), json!({"key": want}), $col);
+                }
+            }
+        }
+        let cls = if bytes.iter().all(|x| *x == 0) { "zero" } else if bytes[0] < 16 { "leading-zero-digit" } else { "random" };
+        $col.eval(&format!("text|{}|{}|{}", name, cls, verdict));
+        if verdict == "roundtrip" {
+            $col.event("text_roundtrip_ok");
+        }
+    }};
+}
+
+/// keys::DevEui / AppEui and their conversions to parser::DevEui / JoinEui.
+macro_rules! eui_text {
+    ($kty:ident, $pty:ident, $v:expr, $col:expr) => {{
+        let v: u64 = $v;
+        let wire = v.to_le_bytes();
+        let want = format!("{:016x}", v);
+        let r = trap(|| {
+            let k = keys::$kty::from(wire);
+            let s = k.to_string();
+            let back = keys::$kty::from_str(&s).ok();
+            let p = parser::$pty::from(k);
+            let ps = p.to_string();
+            let k2 = keys::$kty::from(parser::$pty::from_wire_bytes(wire));
+            let k3 = keys::$kty::from(p);
+            let via_text_p = parser::$pty::from_str(&s).ok();
+            let via_text_k = keys::$kty::from_str(&ps).ok();
+            (k, s, back, p, ps, k2, k3, via_text_p, via_text_k)
+        });
+        let name = concat!("keys::", stringify!($kty));
+        let mut verdict = "roundtrip";
+        match r {
+            Err(t) => {
+                verdict = "violation";
+                treport(name, "panic", format!("text form or conversion panicked: {}", t.msg), json!({"value": want, "loc": t.loc}), $col);
+            }
+            Ok((k, s, back, p, ps, k2, k3, via_p, via_k)) => {
+                if s.len() != 16 {
+                    verdict = "violation";
+                    treport(name, "display-width", format!("to_string() = {:?} is not 16 hex digits", s), json!({"value": want}), $col);
+                } else if !s.eq_ignore_ascii_case(&want) {
+                    verdict = "violation";
+                    treport(name, "display-not-msb-first-hex", format!("to_string() = {:?} for wire octets {}, MSB-first is {:?}", s, hex(&wire), want), json!({"value": want}), $col);
+                } else if back != Some(k) {
+                    verdict = "violation";
+                    treport(name, "parse-of-display-differs", format!("from_str({:?}) = {:?}", s, back), json!({"value": want}), $col);
+                } else if *p.as_wire_bytes() != wire || k2 != k || k3 != k {
+                    verdict = "violation";
+                    treport(name, "conversion-changes-wire-value", format!("{} <-> parser::{} does not keep the wire octets", name, stringify!($pty)), json!({"value": want, "parser_wire": hex(p.as_wire_bytes())}), $col);
+                } else if !ps.eq_ignore_ascii_case(&s) || via_p != Some(p) || via_k != Some(k) {
+                    verdict = "violation";
+                    treport(name, "conversion-does-not-commute-with-text", format!("{:?} vs parser text {:?}; cross-parsed {:?} / {:?}", s, ps, via_p, via_k), json!({"value": want}), $col);
+                } else {
+                    $col.event("eui_conversion_ok");
+                }
+            }
+        }
+        $col.eval(&format!("text|{}|{}|{}", name, vclass_int(v, 64), verdict));
+        if verdict == "roundtrip" {
+            $col.event("text_roundtrip_ok");
+        }
+    }};
+}
+
+fn text_value(rng: &mut Prng, bits: u32, i: u64) -> u64 {
+    let top = full(bits);
+    match i {
+        0 => 0,
+        1 => top,
+        2 => 1,
+        3 => 0x0102_0304_0506_0708 & top,
+        4 => 0xf,
+        5 => 0x10,
+        6 => top >> 4,
+        7 => top >> 8,
+        _ => match rng.below(4) {
+            0 => rng.next_u64() & top & (top >> (4 * rng.below(bits as u64 / 4))),
+            _ => rng.next_u64() & top,
+        },
+    }
+}
+
+fn text_case(ty: u64, i: u64, rng: &mut Prng, col: &mut Collector) {
+    match ty {
+        0 => wire_text!(DevAddr, 4, u32, text_value(rng, 32, i), col),
+        1 => wire_text!(McAddr, 4, u32, text_value(rng, 32, i), col),
+        2 => wire_text!(DevEui, 8, u64, text_value(rng, 64, i), col),
+        3 => wire_text!(JoinEui, 8, u64, text_value(rng, 64, i), col),
+        4 => wire_text!(JoinNonce, 3, u32, text_value(rng, 24, i), col),
+        5 => wire_text!(NetId, 3, u32, text_value(rng, 24, i), col),
+        6 => wire_text!(DevNonce, 2, u16, text_value(rng, 16, i), col),
+        7 => eui_text!(DevEui, DevEui, text_value(rng, 64, i), col),
+        8 => eui_text!(AppEui, JoinEui, text_value(rng, 64, i), col),
+        _ => {
+            let mut k: [u8; 16] = rng.arr();
+            match i {
+                0 => k = [0; 16],
+                1 => k = [0xff; 16],
+                2 => k = [0x00, 0x11, 0x22, 0x33, 0x44, 0x55, 0x66, 0x77, 0x88, 0x99, 0xaa, 0xbb, 0xcc, 0xdd, 0xee, 0xff],
+                3 => k[0] &= 0x0f,
+                4 => k[15] = 0,
+                _ => {}
+            }
+            match ty {
+                9 => key_text!(AppKey, k, col),
+                10 => key_text!(NwkSKey, k, col),
+                11 => key_text!(AppSKey, k, col),
+                12 => key_text!(McKey, k, col),
+                13 => key_text!(McNetSKey, k, col),
+                14 => key_text!(McAppSKey, k, col),
+                15 => key_text!(McRootKey, k, col),
+                16 => key_text!(McKEKey, k, col),
+                _ => key_text!(GenAppKey, k, col),
+            }
+        }
+    }
+}
+const N_TEXT_TYPES: u64 = 18;
+
+// ---- monitor ------------------------------------------------------------------------------
+
+fn cmds() -> &'static Vec<Cmd> {
+    static C: std::sync::OnceLock<Vec<Cmd>> = std::sync::OnceLock::new();
+    C.get_or_init(commands)
+}
+
+/// Work units of the "fields" generator: (command, field, chunk). Narrow arguments (<= 16
+/// bits) are swept exhaustively in chunks of 256 values; wide ones get a boundary chunk and
+/// `wide_chunks` chunks of 256 random values.
+fn units(wide_chunks: u64) -> Vec<(usize, usize, u64)> {
+    let mut u = vec![];
+    for (ci, c) in cmds().iter().enumerate() {
+        for (fi, f) in c.fields.iter().enumerate() {
+            let n = if f.bits <= 16 { ((1u64 << f.bits) / 256).max(1) } else { 1 + wide_chunks };
+            for k in 0..n {
+                u.push((ci, fi, k));
+            }
+        }
+    }
+    u
+}
+
+fn field_pairs() -> Vec<(usize, Option<usize>)> {
+    let mut v = vec![];
+    for (ci, c) in cmds().iter().enumerate() {
+        if c.fields.is_empty() {
+            v.push((ci, None));
+        }
+        for fi in 0..c.fields.len() {
+            v.push((ci, Some(fi)));
+        }
+    }
+    v
+}
+
+/// A command without setters: the fresh creator's image must parse back as that command.
+fn fieldless_case(cmd: &Cmd, col: &mut Collector) {
+    let r = trap(|| {
+        let c = (cmd.make)();
+        (c.build(), c.len(), c.ser().cid(), c.ser().payload_len())
+    });
+    let mut verdict = "roundtrip";
+    match r {
+        Err(t) => {
+            verdict = "violation";
+            report(cmd, "-", "panic", "-", &format!("new()/build() panicked: {}", t.msg), json!({"loc": t.loc}), col);
+        }
+        Ok((img, len, cid, plen)) => {
+            let shape = img.len() == 1 + cmd.plen && img.first() == Some(&cmd.cid) && len == img.len() && cid == cmd.cid && plen == cmd.plen;
+            let parsed = trap(|| snap_one(cmd.set, &img));
+            if !shape {
+                verdict = "violation";
+                report(cmd, "-", "wrong-shape", "-", &format!("fresh creator builds {} (len() {}, cid() {:#04x})", hex(&img), len, cid), json!({}), col);
+            } else if !matches!(&parsed, Ok(Ok((n, _))) if *n == cmd.name) {
+                verdict = "violation";
+                report(cmd, "-", "does-not-parse", "-", "the fresh creator's image does not parse back as this command", json!({"built": hex(&img), "parsed": format!("{:?}", parsed.map_err(|t| t.msg))}), col);
+            }
+        }
+    }
+    col.eval(&format!("{}|{}|-|default|{}", SETS[cmd.set], cmd.name, verdict));
+    if verdict == "roundtrip" {
+        col.event("fieldless_roundtrip_ok");
+    }
+}
+
+impl Monitor for C19 {
+    fn prop(&self) -> &'static str {
+        "C19"
+    }
+    fn gens(&self, tier: Tier) -> Vec<Gen> {
+        if tier == Tier::Sanitizer {
+            return vec![gen("san-text", N_TEXT_TYPES * 16), gen("san-fields", field_pairs().len() as u64 * 16), gen("san-var", 16 * 6)];
+        }
+        vec![
+            gen("fields", units(tier.pick(40, 400, 0)).len() as u64),
+            gen("fieldless", cmds().iter().filter(|c| c.fields.is_empty()).count() as u64),
+            gen("echo", 301 * tier.pick(20, 200, 0)),
+            gen("mc-status-push", 1280 + tier.pick(30_000, 1_000_000, 0)),
+            gen("mc-status-req", 256),
+            gen("sequences", tier.pick(300_000, 5_000_000, 0)),
+            gen("text-devnonce", 256),
+            gen("text", N_TEXT_TYPES * tier.pick(1_000, 10_000, 0)),
+        ]
+    }
+    fn rule(&self) -> String {
+        "fields: for every creator setter of the six command sets, set(field, v) on (a) a fresh creator, (b) a creator with every field pre-set to random admissible values, (c) the same field pre-set to the complement (override); v sweeps the whole argument domain for arguments <= 16 bits (every u8/i8/bool/u16 value, including the out-of-range ones) and boundaries + random values for wider ones; build() is parsed back with the set's iterator and every accessor compared with the specification's unit mapping. fieldless: creators without setters. echo: EchoIncPayloadAnsCreator::payload with 0..300 octets, alone and over an earlier payload. mc-status-push: every group id 0..255 after 0..4 admissible pushes, random scripts of 0..6 pushes. mc-status-req: every mask x every req_group argument. sequences: 0..8 random commands of one set (creators, creator enums, trailing variable-length command) through build_mac_commands/mac_commands_len into exact, slack and too-short buffers, parsed back. text-devnonce: all 2^16 DevNonce values; text: boundary and random values of every wire newtype of parser.rs and every key/EUI type of keys.rs, Display -> FromStr, MSB-first fixed width, EUI conversions. Class = (command or type, field, value class, verdict class).".into()
+    }
+    fn assumptions(&self) -> Vec<String> {
+        vec![
+            "field layouts, widths and unit mappings are transcribed from LoRaWAN 1.0.4 ch. 5 (MaxEIRP table 8,10,12,13,14,16,18,20,21,24,26,27,29,30,33,36 dBm; DeviceTimeAns = u32 seconds little-endian + 1/256 s fraction; DevStatusAns margin 6-bit signed), TS009 (RxAppCnt little-endian, echo = request octets + 1 mod 256, 1..241 octets) and TS005 (McGroupStatusAns = status octet + 5 octets per reported group, group id 0..3, at most 4 groups)".into(),
+            "DeviceTimeAns nano_seconds: the accessor may report the value rounded down or to the nearest 1/256 s; 10^9 ns and more is out of range".into(),
+            "NewChannelReq data_rate_range with max < min is out of range; writing it as given and having the parser's accessor refuse it counts as 'refused'".into(),
+            "an empty EchoIncPayloadAns payload is out of range; no change or a bare CID are both accepted".into(),
+            "McGroupStatusAns items may come back in push order or sorted by group id; pushing a group id twice, a group id above 3 or a fifth group is out of range".into(),
+            "TxFramesCtrlReq and EchoIncPayloadReq have no builder (UnimplementedCreator stubs that panic by design); they are not exercised".into(),
+            "commands that run to the end of the stream (EchoIncPayloadAns) can only be the last element of a sequence".into(),
+            "text forms are compared case-insensitively; only parse(to_string(x)) = x is required of FromStr, not what else it accepts".into(),
+            "for out-of-range values accepted by a setter, bits of the command outside the field's own bits (including RFU bits) must not change".into(),
+        ]
+    }
+    fn required_events(&self, tier: Tier) -> Vec<&'static str> {
+        if tier == Tier::Sanitizer {
+            vec!["text_roundtrip_ok", "field_roundtrip_ok", "eui_conversion_ok"]
+        } else {
+            vec!["field_roundtrip_ok", "out_of_range_refused", "out_of_range_truncated", "override_ok", "fieldless_roundtrip_ok", "echo_roundtrip_ok", "push_roundtrip_ok", "sequence_roundtrip_ok", "sequence_short_buffer_refused", "text_roundtrip_ok", "eui_conversion_ok"]
+        }
+    }
+
+    fn run_case(&self, g: &str, idx: u64, rng: &mut Prng, col: &mut Collector) {
+        match g {
+            "fields" => {
+                let wide = col.tier.pick(40, 400, 0);
+                let (ci, fi, k) = units(wide)[idx as usize];
+                let cmd = &cmds()[ci];
+                let f = &cmd.fields[fi];
+                let vals: Vec<u64> = if f.bits <= 16 {
+                    let n = (1u64 << f.bits).min(256);
+                    (0..n).map(|i| k * 256 + i).collect()
+                } else if k == 0 {
+                    boundaries(f.bits)
+                } else {
+                    (0..256).map(|_| if rng.chance(1, 8) { rng.next_u64() & full(f.bits) & 0xffff_ffff >> rng.below(32) } else { rng.next_u64() & full(f.bits) }).collect()
+                };
+                for v in vals {
+                    for sc in 0..3u8 {
+                        run_field(cmd, fi, v, sc, rng, col);
+                    }
+                }
+            }
+            "fieldless" => {
+                let list: Vec<&Cmd> = cmds().iter().filter(|c| c.fields.is_empty()).collect();
+                fieldless_case(list[idx as usize], col);
+            }
+            "echo" => {
+                let len = (idx % 301) as usize;
+                let over = if idx / 301 == 0 { None } else { Some(rng.below(242) as usize) };
+                echo_case(len, over, rng, col);
+            }
+            "mc-status-push" => {
+                let nb = rng.below(8) as u8;
+                if idx < 1280 {
+                    let k = (idx / 256) as usize;
+                    let id = (idx % 256) as u8;
+                    // k admissible pushes first, avoiding `id` when it is itself a legal id
+                    let mut ids: Vec<u8> = (0..4u8).filter(|x| *x != id).collect();
+                    if k == 4 {
+                        ids = vec![0, 1, 2, 3];
+                    }
+                    ids.truncate(k);
+                    ids.push(id);
+                    push_case(nb, &ids, rng, col);
+                } else {
+                    let n = rng.below(7) as usize;
+                    let ids: Vec<u8> = (0..n).map(|_| if rng.chance(1, 10) { rng.u8() } else { rng.below(4) as u8 }).collect();
+                    push_case(nb, &ids, rng, col);
+                }
+            }
+            "mc-status-req" => req_group_case(idx as u8, col),
+            "sequences" => sequence_case(rng, col),
+            "text-devnonce" => {
+                for lo in 0..256u64 {
+                    wire_text!(DevNonce, 2, u16, idx * 256 + lo, col);
+                }
+            }
+            "text" => {
+                let ty = idx % N_TEXT_TYPES;
+                let round = idx / N_TEXT_TYPES;
+                for i in 0..100u64 {
+                    text_case(ty, if round == 0 { i } else { 100 }, rng, col);
+                }
+            }
+            "san-text" => {
+                let ty = idx / 16;
+                let fl = idx % 16;
+                text_case(ty, fl, rng, col);
+            }
+            "san-fields" => {
+                let pairs = field_pairs();
+                let (ci, fo) = pairs[(idx / 16) as usize];
+                let cmd = &cmds()[ci];
+                match fo {
+                    None => fieldless_case(cmd, col),
+                    Some(fi) => {
+                        let f = &cmd.fields[fi];
+                        let fl = idx % 16;
+                        let v = match fl {
+                            0 => 0,
+                            1 => full(f.bits),
+                            2 => rng.next_u64() & full(f.bits),
+                            _ => rand_adm(f, rng),
+                        };
+                        run_field(cmd, fi, v, (fl % 3) as u8, rng, col);
+                    }
+                }
+            }
+            "san-var" => {
+                let fl = idx % 16;
+                match idx / 16 {
+                    0 => echo_case(1 + fl as usize, None, rng, col),
+                    1 => echo_case(241, Some(fl as usize), rng, col),
+                    2 => push_case(fl as u8 & 7, &[(fl % 4) as u8], rng, col),
+                    3 => push_case(3, &[0, 1, 2, 3][..(fl as usize % 5).min(4)], rng, col),
+                    4 => req_group_case_one(fl as u8, col),
+                    _ => sequence_case(rng, col),
+                }
+            }
+            _ => unreachable!(),
+        }
+    }
+}
+
+fn req_group_case_one(mask: u8, col: &mut Collector) {
+    // sanitizer tier: one mask, the generic loop is cheap enough natively but not under Miri
+    let r = trap(|| {
+        let mut c = McGroupStatusReqCreator::new();
+        c.req_group_mask(mask);
+        c.req_group(mask & 3);
+        c.build().to_vec()
+    });
+    let good = matches!(&r, Ok(a) if a.len() == 2 && a[1] == (mask & 15) | 1 << (mask & 3));
+    col.eval(&format!("mc-down|McGroupStatusReq|req_group|admissible|{}", if good { "roundtrip" } else { "violation" }));
+    if !good {
+        vreport("mcast", "McGroupStatusReq", "req_group", "roundtrip-differs", "req_group does not add exactly the requested group bit", json!({"mask": mask, "result": format!("{:?}", r.map_err(|t| t.msg))}), col);
+    } else {
+        col.event("field_roundtrip_ok");
     }
 }
